@@ -37,7 +37,9 @@
 //	wg    class of waitingG (0, 1 preparing, 2 a parked G)
 //	sh    sharedList as decimal digits of the waker ids, head first
 //	lo    localList likewise
-//	al    allWakers likewise, or -1 while Done is executing (Done reuses the links)
+//	al    1 + allWakers likewise, or 0 while Done is executing (Done reuses the links)
+//
+// sched and obs are printed as primitive-integer lists ([...]%uint63), which Coq parses natively.
 //
 // maximal: the run ended because no goroutine was enabled.
 //
@@ -200,9 +202,9 @@ func execute(nw int, progs [][]op, choose chooser, maxSteps int) result {
 			ws = ws*4 + wk[i].VerifS(s)
 		}
 		shared, local, all, g := s.VerifState(6)
-		wg, sh, lo, al = g, pack(shared), pack(local), pack(all)
+		wg, sh, lo, al = g, pack(shared), pack(local), pack(all)+1
 		if ts[0].inDone {
-			al = -1
+			al = 0
 		}
 		return
 	}
@@ -300,7 +302,7 @@ func (r result) String() string {
 	for _, o := range r.obs {
 		flat = append(flat, o[:]...)
 	}
-	return fmt.Sprintf("Run %d [%s] %s %s %s %s %s", r.nw, strings.Join(ps, ";"), ilist(r.sched), ilist(flat),
+	return fmt.Sprintf("Run %d [%s] %s%%uint63 %s%%uint63 %s %s %s", r.nw, strings.Join(ps, ";"), ilist(r.sched), ilist(flat),
 		bs(r.hung), bs(r.panicked), bs(r.maximal))
 }
 
